@@ -11,6 +11,7 @@ import (
 	"log"
 	"os"
 	"sort"
+	"strconv"
 	"strings"
 	"time"
 
@@ -645,10 +646,12 @@ func declaredValue(v *doc.Value, name string) (value ast.Expr, found bool) {
 }
 
 func lit2string(l *ast.BasicLit) (string, bool) {
-	if !strings.HasPrefix(l.Value, `"`) || !strings.HasSuffix(l.Value, `"`) {
+	// the literal may be a raw string, and an interpreted one may contain escapes
+	s, err := strconv.Unquote(l.Value)
+	if err != nil {
 		return "", false
 	}
-	return strings.Trim(l.Value, `"`), true
+	return s, true
 }
 
 func setAliases(pi *PkgInfo) {
